@@ -93,7 +93,44 @@ def values(st, fields):
     return out, units
 
 
+def mixed_sign_stream(ctx):
+    """Noise pixels below zero: the weighted covariance can then have a negative eigenvalue (there is no real width along
+    that axis: 0).  Sigmas stay real, non-negative and ordered, and equal scale x sqrt(max(eigenvalue, 0)).  Oracle only."""
+    rng = ctx.rng('c11-mixed-sign')
+    for it in range(100 if ctx.quick else 1000):
+        nd = rng.choice([2, 3])
+        n = rng.randint(3, 8)
+        pts = [([rng.randint(0, 4) for _ in range(nd)], Fraction(rng.choice([-8, -4, -2, 4, 8, 16, 24, 32]), 8)) for _ in range(n)]
+        if sum(w for _, w in pts) <= 0:
+            pts.append(([2] * nd, Fraction(12)))
+        dx = rng.choice([1.0, 2.0])
+        md = {'data_unit': u.Jy, 'spatial_scale': dx * u.arcsec}
+        info = {'stream': 'mixed-sign pixels', 'nd': nd, 'points': [[p, str(w)] for p, w in pts]}
+        fails = []
+        try:
+            m0, m1, m2 = exact_moments(pts, nd)
+            with warnings.catch_warnings():
+                warnings.simplefilter('ignore')
+                st = (PPStatistic if nd == 2 else PPVStatistic)(stat_of(pts, nd), dict(md, **({'vaxis': 0} if nd == 3 else {})))
+                obs, _ = values(st, ['major_sigma', 'minor_sigma', 'radius', 'area_ellipse'] + (['v_rms'] if nd == 3 else []))
+            o = nd - 2
+            a, b, c = float(m2[o][o]), float(m2[o][o + 1]), float(m2[o + 1][o + 1])
+            l1, l2 = roots(a + c, a * c - b * b)
+            check_sky('mixed-sign', obs, dx, l1, l2, fails)
+            if nd == 3:
+                wv = math.sqrt(max(float(m2[0][0]), 0.0))
+                if not (obs['v_rms'] == obs['v_rms']) or abs(obs['v_rms'] - wv) > 1e-6 * max(wv, 1.0):
+                    fails.append('v_rms %r, expected sqrt(max(variance, 0)) = %r' % (obs['v_rms'], wv))
+            ctx.count('mixed_sign_indefinite' if l2 < 0 else 'mixed_sign_definite')
+        except Exception as e:
+            fails.append('raised %r' % (e,))
+        ctx.case_done(None, ('mixed-sign', it))
+        if fails:
+            ctx.oracle_failure(info, fails[:3])
+
+
 def explore(ctx):
+    mixed_sign_stream(ctx)
     rng = ctx.rng('c11')
     terms, expect = [], []
     warnings.simplefilter('ignore')
